@@ -9,6 +9,24 @@ BUILT = {
  "C01": ("exploration", "bounded exhaustive small-scope enumeration of term trees, differential against an independent ETF codec",
          "Every term tree over a boundary leaf alphabet (199 leaves: every integer/bignum/float/atom/binary/identifier/fun encoding boundary) under every constructor up to arity 2 exhaustively, arity 3 and 255/256 over representatives, depth 2 (3 in thorough) is encoded, read by an independent reader, decoded and re-encoded; exhaustive inside the stated alphabet and depth, silent outside it.",
          "Trusted: the independent reference codec in harness/vcore (written from erl_ext_dist, unit-tested on hand-derived vectors), flate2. Values outside the alphabet and containers >2^32 elements are not covered.", "3/C01"),
+ "C03": ("exploration", "bounded exhaustive enumeration of all admissible wire encodings per value, each validated by an independent reader",
+         "For every value of the alphabet and every tree of <=4 nodes the full product of admissible encodings of every node (integer widths, zero-padded bignums, text floats, four atom tags incl. Latin-1, STRING_EXT, small/large tuples, three generations of identifier tags, LOCAL_EXT, map entry orders, COMPRESSED) is decoded and compared by value; larger trees vary one node at a time. Exhaustive inside those bounds.",
+         "Trusted: independent reference reader/writer (vcore), flate2 for building compressed inputs. Each generated encoding is first accepted by the reference reader, so a generator bug stops the run (exit 70) instead of raising an alarm.", "3/C03"),
+ "C08": ("exploration", "exhaustive enumeration of integer-tagged tuples up to arity 10 over a boundary alphabet, plus the protocol's operation table",
+         "All tuples {Tag,..} for Tag 0..255, arity 1..10 over a 9-symbol alphabet (exhaustive to arity 4/5, reduced alphabet above), every one parsed, re-serialised by both serialisers and sent through encode/decode; the 30 protocol operations are compared with an independently written (tag, arity, field order) table; 64-bit unlink ids at every representation boundary.",
+         "Trusted: the protocol table transcribed from the ERTS distribution protocol chapter; vcore denotation.", "3/C08"),
+ "C10": ("exploration", "exhaustive enumeration of identifier forms x contexts x conversion sequences, byte comparison",
+         "Every identifier of the alphabet in plain and node-local form (3 hashes, deliberately non-canonical inner encodings) in 9 term contexts is decoded, pushed through every sequence of clone/move/borrowed-and-back up to length 2 (3 thorough) and re-encoded by both encoders; output must equal the input bytes.",
+         "Trusted: vcore writers for building the inputs (self-checked by the reference reader).", "3/C10"),
+ "C11": ("exploration", "all pairs and all triples of a universe of well-formed terms, evaluated on the real cmp/eq/hash",
+         "The four laws of the statement are evaluated on every ordered pair and triple of a universe that contains every type rank and the numeric / list / bit-string / map corner cases, for the owned and the zero-copy type; every 3-subset of a core is also inserted in all 6 orders into BTreeMap/HashMap/sort. Deviations are attributed to listed findings only when the library's answers equal a frozen as-is model of the pinned comparison.",
+         "Trusted: exact reference order (vcore::refval), the frozen as-is model (etfmc/src/asis.rs) used only for attributing known findings.", "3/C11"),
+ "C12": ("exploration", "all pairs of a universe of well-formed terms against an exact reference implementation of Erlang's term order",
+         "Every ordered pair of the order universe is compared by the library and by an exact reference order (exact integer/float comparison, bit-wise bit-strings, keys-before-values maps); same-kind identifier/fun pairs are judged on equality only. Exhaustive over the universe.",
+         "Trusted: vcore::refval::erl_cmp written from the reference manual; identifiers' mutual order is left open as the statement does.", "3/C12"),
+ "C13": ("exploration", "differential exhaustive enumeration: corpus, all truncations/mutations/splices, all short byte strings",
+         "Both decoders run on every corpus encoding, every truncation, per-byte mutation and splice of the short ones and on ALL byte strings 131++s with |s|<=2 (3 in thorough); results must agree structurally (floats by bits, raw identifier bytes), modern-tag inputs accepted by the owned decoder must be accepted, error offsets must lie inside the input.",
+         "Inputs whose declared element counts exceed the input are left to C02 (they are decoded there under a process supervisor).", "3/C13"),
 }
 PENDING_REASON = "check not built yet (construction in progress, see DESIGN.md section 7)"
 
